@@ -159,6 +159,117 @@ theorem askBear_reprT (L : Lang V) (checked : Bool) (f : CKey V → A) (s : Bear
     · exact Or.inr rfl
   · exact Or.inr rfl
 
+/-! ### context-relative hints -/
+
+theorem foldl_and_not (visit : List Bool) (b : Bool) :
+    visit.foldl (fun acc rel => acc && !rel) b = (b && !visit.any id) := by
+  induction visit generalizing b with
+  | nil => simp
+  | cons r t ih =>
+    simp only [List.foldl_cons, ih, List.any_cons, id]
+    cases b <;> cases r <;> simp
+
+/-- the accumulated flag says exactly "no hint of the tree is context-relative", whatever the visiting order -/
+theorem treeCacheable_eq (visit : List Bool) : treeCacheable visit = !mentionsRel visit := by
+  simp [treeCacheable, mentionsRel, foldl_and_not]
+
+/-- invariant of a table shared by all contexts: a cached pair answers every key it matches in EVERY context -/
+def SoundC (L : Lang V) (f : Nat → CKey V → A) (t : Table (CKey V) A) : Prop :=
+  ∀ k v, (k, v) ∈ t → ∀ k', ckeyEq L k k' = true → ∀ c, v = f c k'
+
+/-- every key of the table is context-free -/
+def FreeKeys (visit : V → List Bool) (t : Table (CKey V) A) : Prop :=
+  ∀ k v, (k, v) ∈ t → mentionsRel (visit k.1) = false
+
+theorem askBearC_spec {L : Lang V} {visit : V → List Bool} {checked : Bool} {f : Nat → CKey V → A}
+    (hc : ∀ c, KeyCongruent (f c) (ckeyEq L))
+    (hrel : ∀ a b, L.pyEq a b = true → mentionsRel (visit a) = mentionsRel (visit b))
+    (hctx : ∀ c c' k, mentionsRel (visit k.1) = false → f c k = f c' k)
+    {s : BearState V A} (hs : SoundC L f s.checker) (c : Nat) (q : CKey V)
+    (hco : (coerce L checked s.reprT q.1).1 = q.1 ∨ L.pyEq (coerce L checked s.reprT q.1).1 q.1 = true) :
+    (askBearC L visit treeCacheable checked f s c q).1 = f c q ∧
+    SoundC L f (askBearC L visit treeCacheable checked f s c q).2.checker := by
+  have hq : f c ((coerce L checked s.reprT q.1).1, q.2) = f c q := ckey_congr (hc c) q.2 hco
+  unfold askBearC
+  split
+  · split
+    · next a h =>
+      obtain ⟨k, hm, he⟩ := find_mem h
+      exact ⟨hs k a hm q he c, hs⟩
+    · refine ⟨hq, ?_⟩
+      simp only []
+      split
+      · next hacc =>
+        have hfree0 : mentionsRel (visit (coerce L checked s.reprT q.1).1) = false := by
+          rw [treeCacheable_eq] at hacc; simpa using hacc
+        have hfreeq : mentionsRel (visit q.1) = false := by
+          rcases hco with h | h
+          · rw [← h]; exact hfree0
+          · rw [← hrel _ _ h]; exact hfree0
+        intro k v hm k' he c'
+        rcases List.mem_cons.mp hm with h | h
+        · cases h
+          have hpe : L.pyEq q.1 k'.1 = true := by
+            simp only [ckeyEq, Bool.and_eq_true] at he; exact he.1
+          have hfreek : mentionsRel (visit k'.1) = false := by rw [← hrel _ _ hpe]; exact hfreeq
+          rw [hq, hc c q k' he]
+          exact hctx c c' k' hfreek
+        · exact hs k v h k' he c'
+      · exact hs
+  · exact ⟨hq, hs⟩
+
+theorem askBearC_freeKeys {L : Lang V} {visit : V → List Bool} {checked : Bool} {f : Nat → CKey V → A}
+    (hrel : ∀ a b, L.pyEq a b = true → mentionsRel (visit a) = mentionsRel (visit b))
+    {s : BearState V A} (hs : FreeKeys visit s.checker) (c : Nat) (q : CKey V)
+    (hco : (coerce L checked s.reprT q.1).1 = q.1 ∨ L.pyEq (coerce L checked s.reprT q.1).1 q.1 = true) :
+    FreeKeys visit (askBearC L visit treeCacheable checked f s c q).2.checker := by
+  unfold askBearC
+  split
+  · split
+    · exact hs
+    · simp only []
+      split
+      · next hacc =>
+        have hfree0 : mentionsRel (visit (coerce L checked s.reprT q.1).1) = false := by
+          rw [treeCacheable_eq] at hacc; simpa using hacc
+        have hfreeq : mentionsRel (visit q.1) = false := by
+          rcases hco with h | h
+          · rw [← h]; exact hfree0
+          · rw [← hrel _ _ h]; exact hfree0
+        intro k v hm
+        rcases List.mem_cons.mp hm with h | h
+        · cases h; exact hfreeq
+        · exact hs k v h
+      · exact hs
+  · exact hs
+
+/-- a history of contextual queries keeps both invariants (repaired coercion) -/
+theorem foldl_stepC_inv {L : Lang V} {visit : V → List Bool} {f : Nat → CKey V → A}
+    (hc : ∀ c, KeyCongruent (f c) (ckeyEq L))
+    (hrel : ∀ a b, L.pyEq a b = true → mentionsRel (visit a) = mentionsRel (visit b))
+    (hctx : ∀ c c' k, mentionsRel (visit k.1) = false → f c k = f c' k)
+    (hist : List (COp V)) {s : BearState V A} (hs : SoundC L f s.checker) :
+    SoundC L f (hist.foldl (stepC L visit treeCacheable true f) s).checker := by
+  induction hist generalizing s with
+  | nil => exact hs
+  | cons op r ih =>
+    apply ih
+    cases op with
+    | ask c q => exact (askBearC_spec hc hrel hctx hs c q (coerce_checked L _ _)).2
+    | clearCaches => intro k v h; simp [stepC, BearState.empty] at h
+
+theorem foldl_stepC_free {L : Lang V} {visit : V → List Bool} {f : Nat → CKey V → A}
+    (hrel : ∀ a b, L.pyEq a b = true → mentionsRel (visit a) = mentionsRel (visit b))
+    (hist : List (COp V)) {s : BearState V A} (hs : FreeKeys visit s.checker) :
+    FreeKeys visit (hist.foldl (stepC L visit treeCacheable true f) s).checker := by
+  induction hist generalizing s with
+  | nil => exact hs
+  | cons op r ih =>
+    apply ih
+    cases op with
+    | ask c q => exact askBearC_freeKeys hrel hs c q (coerce_checked L _ _)
+    | clearCaches => intro k v h; simp [stepC, BearState.empty] at h
+
 /-! ### the id discipline -/
 
 theorem heapGet_heapDel_ne (h : Heap V) {a x : Nat} (hne : x ≠ a) : heapGet (heapDel h a) x = heapGet h x := by
